@@ -2266,22 +2266,24 @@ def jobs_numpy_getitem(tier):
 
 
 # ------------------------------------------------------------------------------------------------ C08: simplify_uniontype (union of union)
-def build_union8_64(nc, tags_c, contents, name, index_bound):
-    """UnionArray8_64 with concrete tags, symbolic index (entry i < index_bound[tag]) over the given content pointers"""
+def build_union8_64(nc, tags_c, contents, name, index_bound, width='64'):
+    """UnionArray8_<width> with concrete tags, symbolic index (entry i < index_bound[tag]) over the given content pointers"""
+    T, bits, uns = WIDTHS[width]
     n = len(tags_c)
-    fo, sz, al, fields = nc.layout_of('UNI', '_ZNK7awkward12UnionArrayOfIalE6lengthEv')
+    fo, sz, al, fields = nc.layout_of('UNI', '_ZNK7awkward12UnionArrayOfIa%sE6lengthEv' % T)
     tarr = z3.K(z3.BitVecSort(64), BV(0, 8))
     for i, t in enumerate(tags_c):
         tarr = z3.Store(tarr, BV(i), BV(t, 8))
     tdata = nc.m.array(name + '_tags', ('i', 8), max(1, n), const=True, arr=tarr)
-    idata = nc.m.array(name + '_index', ('i', 64), max(1, n), const=True)
-    a0 = z3.Array(name + '_index', z3.BitVecSort(64), z3.BitVecSort(64))
-    idx = [z3.Select(a0, BV(i)) for i in range(n)]
+    idata = nc.m.array(name + '_index', ('i', bits), max(1, n), const=True)
+    a0 = z3.Array(name + '_index', z3.BitVecSort(64), z3.BitVecSort(bits))
+    raw = [z3.Select(a0, BV(i)) for i in range(n)]
+    idx = [r if bits == 64 else (z3.ZeroExt(64 - bits, r) if uns else z3.SignExt(64 - bits, r)) for r in raw]
     for i, t in enumerate(tags_c):
         nc.m.assume(idx[i] >= 0, idx[i] < index_bound[t])
-    cells = nc.content_header(name, nc.vptr_of('N7awkward12UnionArrayOfIalEE', 'UNI'))
+    cells = nc.content_header(name, nc.vptr_of('N7awkward12UnionArrayOfIa%sEE' % T, 'UNI'))
     nc.index_cells(cells, fo[1], tdata, BV(0), BV(n), mangled_T='a')
-    nc.index_cells(cells, fo[2], idata, BV(0), BV(n))
+    nc.index_cells(cells, fo[2], idata, BV(0), BV(n), mangled_T=T)
     bufc = {}
     for i, cp in enumerate(contents):
         bufc[16 * i] = (cp, 8); bufc[16 * i + 8] = (NULL, 8)
@@ -2292,7 +2294,7 @@ def build_union8_64(nc, tags_c, contents, name, index_bound):
 
 
 @guard
-def h_union_simplify(outer_tags, inner_tags, mergeable_pairs):
+def h_union_simplify(outer_tags, inner_tags, mergeable_pairs, outer_w='64', inner_w='64'):
     """simplify_uniontype of a union whose content 1 is itself a union: the nesting is removed and mergeable contents are merged, and every element is
     still the same element of the same original content.  Contents: 0 = A (outer), inner union holds B and C; mergeable_pairs: which of B, C merge into A"""
     nc = NodeCtx(['UNI', 'IA', 'IDX', 'CNT', 'UTL', 'KD', 'IDS', 'EA'], [], unwind=max(14, 3 * (len(outer_tags) + len(inner_tags)) + 12))
@@ -2340,10 +2342,10 @@ def h_union_simplify(outer_tags, inner_tags, mergeable_pairs):
         nc._ret(st, sret, p)
         return None
     nc.m.eng.stubs['vf$slot%d' % nc.slot('9mergemanyERKSt6vector')] = s_content_mergemany
-    inner, iidx = build_union8_64(nc, inner_tags, [ptrs[1], ptrs[2]], 'inner', [lens[1], lens[2]])
-    this, oidx = build_union8_64(nc, outer_tags, [ptrs[0], inner], 'node', [lens[0], BV(len(inner_tags))])
+    inner, iidx = build_union8_64(nc, inner_tags, [ptrs[1], ptrs[2]], 'inner', [lens[1], lens[2]], width=inner_w)
+    this, oidx = build_union8_64(nc, outer_tags, [ptrs[0], inner], 'node', [lens[0], BV(len(inner_tags))], width=outer_w)
     nc.m.record('ret', {})
-    out = nc.m.call('_ZNK7awkward12UnionArrayOfIalE18simplify_uniontypeEbb', [Ptr('ret', 0), this, z3.BitVecVal(1, 1), z3.BitVecVal(0, 1)])
+    out = nc.m.call('_ZNK7awkward12UnionArrayOfIa%sE18simplify_uniontypeEbb' % WIDTHS[outer_w][0], [Ptr('ret', 0), this, z3.BitVecVal(1, 1), z3.BitVecVal(0, 1)])
     obls = [('simplify_uniontype does not raise', out.raised)]
     want = []
     for i, t in enumerate(outer_tags):
@@ -2389,12 +2391,12 @@ def h_union_simplify(outer_tags, inner_tags, mergeable_pairs):
         pa, va = mk('int', la, 0)
         pb, vb = mk(kb, lb, 1000)
         pc2, vc = mk(kc, lcc, 2000)
-        inner_prog = pb + pc2 + 'union8_64 %d %s %s 2 ' % (len(inner_tags), ' '.join(map(str, inner_tags)), ' '.join(map(str, iv)))
-        prog = pa + inner_prog + 'union8_64 %d %s %s 2 simplify' % (len(outer_tags), ' '.join(map(str, outer_tags)), ' '.join(map(str, ov)))
+        inner_prog = pb + pc2 + 'union8_%s %d %s %s 2 ' % (inner_w, len(inner_tags), ' '.join(map(str, inner_tags)), ' '.join(map(str, iv)))
+        prog = pa + inner_prog + 'union8_%s %d %s %s 2 simplify' % (outer_w, len(outer_tags), ' '.join(map(str, outer_tags)), ' '.join(map(str, ov)))
         inner_val = [(vb if t == 0 else vc)[j] for t, j in zip(inner_tags, iv)]
         exp = [va[j] if t == 0 else inner_val[j] for t, j in zip(outer_tags, ov)]
         return akrun_check(prog, exp, 'union(tags=%s, index=%s) over [ints, union(tags=%s, index=%s)] simplified' % (list(outer_tags), ov, list(inner_tags), iv))
-    return mdischarge(nc.m, 'UnionArray8_64::simplify_uniontype outer=%s inner=%s merges=%s' % (''.join(map(str, outer_tags)), ''.join(map(str, inner_tags)), ''.join(mergeable_pairs) or '-'), obls, [], replay=replay,
+    return mdischarge(nc.m, 'UnionArray8_%s::simplify_uniontype outer=%s inner(8_%s)=%s merges=%s' % (outer_w, ''.join(map(str, outer_tags)), inner_w, ''.join(map(str, inner_tags)), ''.join(mergeable_pairs) or '-'), obls, [], replay=replay,
                       prefer=[l <= 4 for l in lens],
                       extra=dict(bounds='tags concrete (case split), union indexes and content lengths symbolic; mergeability table concrete'))
 
@@ -2407,6 +2409,13 @@ def jobs_union(tier):
         for i in ins:
             for mp in ((), ('B',), ('C',)):
                 js.append((h_union_simplify, (o, i, mp), 1800))
+    # the nine (outer width, inner width) template combinations each have their own simplify kernel
+    combos = [(a, b) for a in ('64', '32', 'U32') for b in ('64', '32', 'U32') if (a, b) != ('64', '64')]
+    for k, (a, b) in enumerate(combos):
+        for o in (outs[:1] if tier == 'quick' else outs[:3]):
+            for i in (ins[:1] if tier == 'quick' else ins[:2]):
+                for mp in (((), ('B',))[k % 2:k % 2 + 1] if tier == 'quick' else ((), ('B',), ('C',))):
+                    js.append((h_union_simplify, (o, i, mp, a, b), 1800))
     return js
 
 
